@@ -36,7 +36,7 @@ FILL = [
     [dict(k="a", j=None, v=0, s="x", e=None, f=1), dict(k=None, j=None, v=None, s="", e=None, f=None),
      dict(k=None, j=2, v=5, s="xx", e=5, f=5)],
 ]
-FIXED_SHAPE = {"validate", "recordcomplement", "recorddiff0", "recorddiff1", "setheader", "pushheader"}
+FIXED_SHAPE = {"validate", "recordcomplement", "recorddiff0", "recorddiff1", "setheader", "pushheader", "capture_index"}
 
 
 def mk(shape, rows, cells=None):
